@@ -476,10 +476,16 @@ async fn run(input: RunInput, mode: Mode) -> RunOutput {
         } else if kind < 78 && faulty {
             interesting = true;
             let dur = if r.gen_bool(0.4) { idle_ms + ka_ms.unwrap_or(0) + r.gen_range(200..3000) } else { r.gen_range(50..idle_ms / 2) };
-            let k = r.gen_range(0..3u8);
+            let k = r.gen_range(0..4u8);
             match k {
                 0 => w.fabric.partition(addrs[i], addrs[j]),
                 1 => w.fabric.block(addrs[i], addrs[j]),
+                3 => {
+                    // the whole process stalls (a suspended VM, a debugger, a long GC pause next
+                    // door): the clock jumps, every timer that expired meanwhile fires at once
+                    tokio::time::advance(Duration::from_millis(dur)).await;
+                    w.probe(if dur > idle_ms { "process-stall-longer-than-idle-timeout" } else { "process-stall" });
+                }
                 _ => {
                     let mut burst = link.clone();
                     burst.drop = 0.7;
@@ -487,8 +493,10 @@ async fn run(input: RunInput, mode: Mode) -> RunOutput {
                     w.fabric.set_link(addrs[j], addrs[i], burst);
                 }
             }
-            healing.push((w.now_ms() + dur, i, j, k));
-            desc = format!("{} n{i}-n{j} {}", ["partition", "blackhole", "loss-burst"][k as usize], if dur > idle_ms { "long" } else { "short" });
+            if k != 3 {
+                healing.push((w.now_ms() + dur, i, j, k));
+            }
+            desc = format!("{} n{i}-n{j} {}", ["partition", "blackhole", "loss-burst", "process-stall"][k as usize], if dur > idle_ms { "long" } else { "short" });
         } else if kind < 84 && !stale.is_empty() {
             // an RPC over a Peer handle taken earlier
             let (si, sj, mut handle, taken) = stale.remove(r.gen_range(0..stale.len()));
